@@ -136,6 +136,7 @@ class GrammarSampler:
         self._minlen()
         self._contexts()
         self.used = [0] * len(self.prods)
+        self.index_names()
 
     def is_term(self, s):
         return s in self.terms and s not in self.by_lhs
@@ -219,6 +220,77 @@ class GrammarSampler:
             else:
                 self.expand(s, rnd, (budget - len(rhs)) // nnt, out, None, depth + 1)
 
+    # ---- coverage targets: what the parser driver can observe (production ids of the CST) ----
+
+    def index_names(self):
+        """production_names id (recorded by the parser driver) <-> sampler production; which productions can be
+        observed at all (an `inline` production whose source is a terminal leaves no trace in the CST)"""
+        g = self.g
+        qual2id = {tuple(q): i for i, q in enumerate(g['production_names'])}
+        self.id_of, self.k_of = {}, {}
+        for k, (_lhs, _rhs, i) in enumerate(self.prods):
+            q = tuple(g['productions'][i].get('qual') or ())
+            if q in qual2id:
+                self.id_of[k] = qual2id[q]
+                self.k_of[qual2id[q]] = k
+        inline = {k: self.g['productions'][i].get('inline') for k, (_l, _r, i) in enumerate(self.prods)}
+        unobs = set()
+        changed = True
+        while changed:
+            changed = False
+            for k, (_lhs, rhs, i) in enumerate(self.prods):
+                if k in unobs or inline[k] is None:
+                    continue
+                full = g['productions'][i]['rhs']
+                if inline[k] >= len(full):
+                    continue
+                src = full[inline[k]]
+                if self.is_term(src) or all(c in unobs for c in self.by_lhs.get(src, ())):
+                    unobs.add(k)
+                    changed = True
+        self.inline, self.unobservable = inline, unobs
+        # names ids that no sampler production maps to (ungeneratable tokens, the start wrapper)
+        self.unmapped_ids = [i for i in range(len(g['production_names'])) if i not in self.k_of]
+
+    def edge_targets(self, max_alts=8):
+        """(parent names id, rhs position, child names id) for every position of every non-inline production whose
+        nonterminal has 2..max_alts alternatives (optional clauses, small choices): each alternative must be seen
+        in THAT position, not just somewhere.  -> (list of targets, list of [parent id, position])"""
+        targets, positions = [], []
+        for k, (_lhs, rhs, i) in enumerate(self.prods):
+            if self.inline.get(k) is not None or k not in self.id_of or self.prodlen[k] >= 10 ** 9:
+                continue
+            if '<e>' in self.g['productions'][i]['rhs']:
+                continue
+            for pos, s in enumerate(rhs):
+                if self.is_term(s):
+                    continue
+                alts = [c for c in self.by_lhs.get(s, ()) if self.prodlen[c] < 10 ** 9 and c in self.id_of]
+                obs = [c for c in alts if c not in self.unobservable]
+                if 2 <= len(alts) <= max_alts and obs:
+                    positions.append([self.id_of[k], pos])
+                    for c in obs:
+                        targets.append((self.id_of[k], pos, self.id_of[c]))
+        return targets, positions
+
+    def sample_edge(self, entry, rnd, pid, pos, cid, budget=4):
+        """a text whose derivation uses production `pid` with production `cid` at rhs position `pos`"""
+        kp, kc = self.k_of.get(pid), self.k_of.get(cid)
+        if kp is None or kc is None:
+            return None
+        r = self.chain_to(entry, self.prods[kp][0])
+        if r is None:
+            return None
+        start, chain = r
+        names = []
+        self._expand_chain(start, chain, kp, rnd, budget, names, edge=(pos, kc))
+        return self.render(names, entry, rnd)
+
+    def expand_prod(self, k, rnd, budget, out):
+        self.used[k] += 1
+        for s in self.prods[k][1]:
+            self.expand(s, rnd, budget, out)
+
     def chain_to(self, entry, target_nt):
         d = self.ctx[entry]
         if target_nt not in d:
@@ -248,18 +320,21 @@ class GrammarSampler:
             self.expand(start, rnd, budget, names)
         return self.render(names, entry, rnd)
 
-    def _expand_chain(self, nt, chain, target, rnd, budget, out):
+    def _expand_chain(self, nt, chain, target, rnd, budget, out, edge=None):
         if not chain:
             # expand nt with the target production
             self.used[target] += 1
-            for s in self.prods[target][1]:
-                self.expand(s, rnd, budget // 2, out)
+            for i, s in enumerate(self.prods[target][1]):
+                if edge is not None and i == edge[0]:
+                    self.expand_prod(edge[1], rnd, budget // 2, out)
+                else:
+                    self.expand(s, rnd, budget // 2, out)
             return
         k, pos = chain[0]
         self.used[k] += 1
         for i, s in enumerate(self.prods[k][1]):
             if i == pos:
-                self._expand_chain(s, chain[1:], target, rnd, budget, out)
+                self._expand_chain(s, chain[1:], target, rnd, budget, out, edge)
             else:
                 self.expand(s, rnd, 2, out)
 
@@ -643,7 +718,7 @@ def g_term(rnd, d, nops=28, image=True):
         parts = [f'K {g_optmod(rnd)} {g_name(rnd)} {ka}'] + [sub() for _ in range(ka)] + [str(kk)] + [f'{n} {sub()}' for n in names]
         return ' '.join(parts)
     if r < 0.79:
-        return f'T {rnd.randrange(2)} {g_type(rnd)} {sub()}'
+        return f'T {rnd.choice([0, 0, 1, 2])} {g_type(rnd)} {sub()}'
     if r < 0.85:
         x = sub()
         if image and x.startswith('D '):
@@ -667,21 +742,23 @@ def g_term(rnd, d, nops=28, image=True):
         k = rnd.randint(1, 2)
         return f'X {x} {k} ' + ' '.join(g_step(rnd) for _ in range(k))
     k = rnd.randint(1, 3)
+    if not image and rnd.random() < 0.3:
+        k = 0                                     # `x {}`: printed as `x` on purpose (outside [image])
     els = []
     for n in rnd.sample(PLAIN_NAMES, k):
         els.append(f'{n} ' + (sub() if rnd.random() < 0.4 else '_'))
-    return f'H {sub()} {k} ' + ' '.join(els)
+    return (f'H {sub()} {k} ' + ' '.join(els)).rstrip()
 
 
 # texts over the token vocabulary of the model, for model-parser vs real-parser agreement
 CORE_NAMES = ['x', 'y', 'z', 'Foo', 'bar', 'a1', 'T', 'U', 'f', 'g', 'w', '`my name`', '`select`', 'p', 'q', 'k']
 CORE_ATOMS = ['x', 'y', '1', '2', "'abc'", '$x', '.bar', '.<bar', '@p', 'x.y', 'std::f(x)', 'f()', 'f(x, k := 2)', '(1, 2)', '(1,)', '()', '[1]', '[]',
               '{1, 2}', '{}', '(a1 := 1)', 'true', 'false', '-5', '1.5', '1n', "b'ab'", 'x[0]', 'x[1:2]', 'x[:2]', 'x[1:]', 'x {bar}', 'x {bar, p := 1}',
-              'GLOBAL g', 'GLOBAL std::g', 'x[IS T]', 'x[IS std::T].y', 'Foo.bar.<p[IS T]@q', '<T>x', '<optional T>x', '<array<T>>x', '<tuple<T, U>>x',
+              'GLOBAL g', 'GLOBAL std::g', 'x[IS T]', 'x[IS std::T].y', 'Foo.bar.<p[IS T]@q', '<T>x', '<optional T>x', '<required T>x', '<array<T>>x', '<tuple<T, U>>x',
               'DETACHED x', '`my name`.`select`', 'std::Foo', '(x)', '((x))', '(x.y).z', '(x[0])[1]', '(1, 2).p', '$x.p', '{1}.p', '(x + y).p']
 CORE_BINOPS = ['+', '-', '*', '/', '//', '%', '^', '++', '??', '=', '!=', '<', '>', '<=', '>=', '?=', '?!=',
                'AND', 'OR', 'LIKE', 'NOT LIKE', 'ILIKE', 'NOT ILIKE', 'IN', 'NOT IN', 'UNION', 'EXCEPT', 'INTERSECT']
-CORE_PREFIX = ['-', '+', 'NOT', 'EXISTS', 'DISTINCT', 'DETACHED', '<T>', '<optional std::T>', '<array<T>>']
+CORE_PREFIX = ['-', '+', 'NOT', 'EXISTS', 'DISTINCT', 'DETACHED', '<T>', '<optional std::T>', '<required T>', '<array<T>>']
 
 
 def core_text(rnd, depth, parens=0.3):
@@ -701,7 +778,7 @@ def core_text(rnd, depth, parens=0.3):
         t = rnd.choice(['T', 'std::T', '(array<T>)', 'array<T>', '(T)'])
         return f'{mp(sub())} IS {rnd.choice(["", "NOT "])}{t}'
     if r < 0.88:
-        post = rnd.choice(['[0]', '[1:2]', '[:2]', '[1:]', '.p', '.<q', '@p', ' {bar}', ' {bar, p := 1}', '[IS T]', '.p.q'])
+        post = rnd.choice(['[0]', '[1:2]', '[:2]', '[1:]', '.p', '.<q', '@p', ' {bar}', ' {bar, p := 1}', '[IS T]', '.p.q', ' {}'])
         return f'{mp(sub())}{post}'
     es = [sub() for _ in range(rnd.randint(0, 3))]
     k = rnd.random()
@@ -712,3 +789,113 @@ def core_text(rnd, depth, parens=0.3):
     if k < 0.75:
         return '{' + ', '.join(es) + '}'
     return 'f(' + ', '.join(es) + (', ' if es else '') + 'k := ' + sub() + ')'
+
+
+# ----------------------------------------------------------------------------- string literals: pairs of character classes
+# every ordered pair of character classes inside one literal, in every quoting style: the printer chooses the
+# quoting / escaping of a string from ALL its characters, so single-class strings do not exercise the fall-backs
+
+CHAR_CLASSES = [
+    ('nl', '\n', '\\n'), ('tab', '\t', '\\t'), ('cr', '\r', '\\r'), ('ctl', '\x01', '\\x01'), ('esc', '\x1b', '\\x1b'),
+    ('del', '\x7f', '\\x7f'), ('c1', '\x85', '\\u0085'), ('c1b', '\x9f', '\\u009f'), ('nbsp', '\xa0', '\\u00a0'),
+    ('shy', '\xad', '\\u00ad'), ('latin', '\xe9', '\\u00e9'), ('bidi', '‮', '\\u202e'), ('bidi2', '⁦', '\\u2066'),
+    ('zwsp', '​', '\\u200b'), ('bom', '﻿', '\\ufeff'), ('ls', ' ', '\\u2028'), ('astral', '\U0001f600', '\\U0001f600'),
+    ('combining', 'é', 'e\\u0301'), ('squote', "'", "\\'"), ('dquote', '"', '\\"'), ('backslash', '\\\\', '\\\\'),
+    ('dollar', '$', '$'), ('ddollar', '$$', '$$'), ('backtick', '`', '`'), ('interp', '\\(x)', '\\(x)'), ('space', ' ', ' '),
+]
+
+
+def string_class_texts(rnd, per_pair=2):
+    out = []
+    for na, ra, ea in CHAR_CLASSES:
+        for nb, rb, eb in CHAR_CLASSES:
+            forms = []
+            body_e = 'a' + ea + 'b' + eb + 'c'
+            body_r = 'a' + ra + 'b' + rb + 'c'
+            body_m = 'a' + ea + 'b' + rb + 'c'
+            forms.append("'" + body_e + "'")
+            forms.append('"' + body_e.replace("\\'", "'") + '"' if '"' not in body_e.replace('\\"', '') else "'" + body_m + "'")
+            if "'" not in body_r:
+                forms.append("'" + body_r + "'")
+                if '\\' not in body_r:
+                    forms.append("r'" + body_r + "'")
+            if '"' not in body_r:
+                forms.append('"' + body_m + '"')
+            if '$$' not in body_r and not body_r.endswith('$'):
+                forms.append('$$' + body_r + '$$')
+            else:
+                forms.append('$q$' + body_r + '$q$')
+            for lit in rnd.sample(forms, min(per_pair, len(forms))):
+                ctx = rnd.choice(['select {};', 'select {};', 'select {};', "create type T { create annotation title := {} };",
+                                  "select f({}, k := {}) ++ {};"])
+                out.append(('block', ctx.replace('{}', lit)))
+    return out
+
+
+# ----------------------------------------------------------------------------- statements in every statement position
+# exhaustive product (hole x statement form): which statement positions need parentheses depends on the pair
+
+STMT_FORMS = [
+    'select User filter .active', 'select 1', 'select User { name, friends: { name } } order by .name limit 1',
+    "insert User { name := 'a' }", "insert User { name := 'a' } unless conflict on .name else (select User)",
+    "update User filter .name = 'a' set { name := 'b' }", 'delete User filter .active', 'for y in {1, 2} union y',
+    'for y in {1, 2} select y', 'for y in (select User filter .active) select y.name', 'for y in (select User) union y.name',
+    'with z := 1 select z', 'with z := (select User) select z.name', 'group User by .name',
+    'group User using n := .name by n', '(select User)', 'User', '{1, 2}', 'f(x)', 'x.y', '<int64>x', '-x', 'x + y',
+    'x union y', 'x if y else z', '(x, y)', '[x]', 'x {a}', 'distinct x', 'exists x', 'not x', 'detached x',
+]
+
+STMT_HOLES = [
+    ('block', 'for x in (@) union x.name;'), ('block', 'for x in (@) select x.name;'), ('block', 'for x in (@) insert T { n := x };'),
+    ('block', 'for x in (@) update T set { n := x };'), ('block', 'for x in (@) delete T;'),
+    ('block', 'for x in (@) for y in (@2) select (x, y);'), ('block', 'for x in (@) for y in (@2) union (x, y);'),
+    ('block', 'for x in @ union x;'), ('block', 'for x in @ select x;'),
+    ('block', 'for x in {1} union (@);'), ('block', 'for x in {1} @;'), ('block', 'for optional x in (@) union x;'),
+    ('block', 'for x in {1} for y in {2} @;'), ('block', 'for x in {1} union (for y in {2} @);'),
+    ('block', 'select (@);'), ('block', 'select (@).name;'), ('block', 'select count((@));'), ('block', 'select (@) union (@2);'),
+    ('block', 'select User { a := (@) };'), ('block', 'with w := (@) select w;'), ('block', 'with w := @ select w;'),
+    ('block', 'select 1 filter exists (@);'), ('block', "insert User { friends := (@) };"), ('block', 'update User set { friends := (@) };'),
+    ('block', 'update User set { friends += (@) };'), ('block', 'select <str>(@);'), ('block', 'select (@) ?? (@2);'),
+    ('block', 'select ((@), 1);'), ('block', 'select [(@)];'), ('block', 'select {(@), (@2)};'), ('block', 'select (@) if true else (@2);'),
+    ('block', 'select 1 if (@) else 2;'), ('block', 'select (@) is User;'), ('block', 'select (@)[is User];'), ('block', 'select not exists (@);'),
+    ('block', 'select -(@);'), ('block', 'select distinct (@);'), ('block', 'select detached (@);'), ('block', 'select (@) {name};'),
+    ('block', 'select (@)[0];'), ('block', 'select (@) in (@2);'), ('block', 'select x filter (@) order by (@2) offset (@) limit (@2);'),
+    ('block', 'select (a := (@));'), ('block', 'select f(k := (@));'), ('block', 'select assert_single((@));'),
+    ('block', 'select User { name } filter .name = (@);'), ('block', 'select User { multi a := (@), required b := (@2) };'),
+    ('block', 'insert T { n := (@) } unless conflict on .n else (@2);'), ('block', 'group (@) by .name;'),
+    ('block', 'group x using n := (@) by n;'), ('block', 'analyze @;'), ('block', 'describe @;'), ('block', 'select (@) @2;'),
+    ('block', 'create alias A := (@);'), ('block', 'create function f() -> int64 using (@);'),
+    ('block', 'create function f(a: int64 = (@)) -> int64 using (@2);'),
+    ('block', 'create type T { create property p := (@); };'), ('block', 'alter type T { create link l := (@) };'),
+    ('block', 'create global g := (@);'), ('block', 'create type T { create trigger tr after insert for each do (@); };'),
+    ('block', 'create type T { create access policy ap allow all using (exists (@)); };'),
+    ('block', 'alter type T { alter property p { set required using (@) } };'),
+    ('block', 'alter type T { alter link l { reset cardinality using (@) } };'),
+    ('block', 'alter type T { alter link l { set single using (@) } };'),
+    ('block', 'alter type T { alter property p { set type str using (@) } };'),
+    ('block', 'alter type T { alter property p { reset optionality using (@) } };'),
+    ('block', 'create type T { create property p -> str { set default := (@); create rewrite insert using (@2) } };'),
+    ('block', 'create type T { create constraint expression on (@) except (@2); create index on (@) except (@2) };'),
+    ('block', 'configure session set x := (@);'), ('block', 'set global g := (@);'), ('block', 'configure instance insert Auth { p := (@) };'),
+    ('block', 'alter type T { alter property p { set default := (@); using (@2) } };'),
+    ('sdl', 'type T { property p := (@); };'), ('sdl', 'alias A := (@);'), ('sdl', 'function f() -> int64 using (@);'),
+    ('sdl', 'global g := (@);'), ('sdl', 'type T { link l -> U { default := (@); rewrite insert using (@2) }; trigger tr after insert for each do (@); };'),
+    ('sdl', 'type T { access policy ap allow all using (exists (@)); constraint expression on (@2); index on (@) except (@2); };'),
+    ('fragment', '(@)'), ('fragment', '(@).name'), ('fragment', 'exists (@) and (@2)'),
+    ('migration', 'alter type T { alter link l { reset cardinality using (@) } }; create alias A := (@2);'),
+]
+
+
+def stmt_nest_texts(rnd, nrandom=300):
+    out = []
+    for e, h in STMT_HOLES:
+        for st in STMT_FORMS:
+            out.append((e, h.replace('@2', rnd.choice(STMT_FORMS)).replace('@', st)))
+    # two levels: a hole filled with a filled hole (block holes only, without the trailing `;`)
+    inner = [h[:-1] for e, h in STMT_HOLES if e == 'block' and h.endswith(';') and h.count(';') == 1
+             and h.split()[0] in ('for', 'select', 'with', 'insert', 'update', 'group')]
+    for _ in range(nrandom):
+        e, h = rnd.choice(STMT_HOLES)
+        mid = rnd.choice(inner).replace('@2', rnd.choice(STMT_FORMS)).replace('@', rnd.choice(STMT_FORMS))
+        out.append((e, h.replace('@2', rnd.choice(STMT_FORMS)).replace('@', mid)))
+    return out
